@@ -217,10 +217,20 @@ Theorem C17_shift_density : forall mu sg s c x : R, (0 < sg)%R -> (0 < c)%R ->
   (normal_logpdf mu sg ((x - s) / c) + - ln c)%R = normal_logpdf (s + c * mu)%R (c * sg)%R x.
 Proof. exact shift_factor_is_density. Qed.
 
-Theorem C17_transform_density : forall (p : R -> R) (rs : list rtrans) (x : R), good rs x ->
-  exists D, derivable_pt_lim (fun z => fst (tdet rs z)) x D /\ (0 < D)%R /\
-            tfactor p rs x = (p (fst (tdet rs x)) + ln D)%R.
+(* abstract form: any stack of transforms that report the log of their derivative *)
+Theorem C17_logdet_chain_rule : forall (p : R -> R) (rs : list rtrans) (x : R), good rs x ->
+  exists D, derivable_pt_lim (fun z => fst (ProofsR.tdet rs z)) x D /\ (0 < D)%R /\
+            tfactor p rs x = (p (fst (ProofsR.tdet rs x)) + ln D)%R.
 Proof. exact tfactor_change_of_variables. Qed.
+
+(* the model's own _transform_det / factor (the definitions compared bit-for-bit with the code),
+   over the reals: factor(x) = p(T x) + ln T'(x) for shift / log / log10 / exp / phi stacks
+   (for phi the derivative of ndtri is an assumption on the library function, inside good_stack) *)
+Theorem C17_transform_density : forall (ndtri npdf : R -> R) (p : R -> R) (stack : list (transform R)) (x : R),
+  good_stack ndtri npdf (rev stack) x ->
+  exists D, derivable_pt_lim (fun z => fst (transform_det (RopsP ndtri npdf) stack z)) x D /\ (0 < D)%R /\
+            Model.factor (RopsP ndtri npdf) p stack x = (p (fst (transform_det (RopsP ndtri npdf) stack x)) + ln D)%R.
+Proof. exact model_factor_change_of_variables. Qed.
 
 Print Assumptions C17_div_mul_partial.
 Print Assumptions C17_wrapper_preserved.
